@@ -2,6 +2,7 @@ package main
 
 import (
 	"fmt"
+	"go/constant"
 	"go/token"
 	"go/types"
 	"sort"
@@ -29,6 +30,7 @@ type enumOutcome struct {
 	result int64             // returned enum value
 	unknownResult bool       // lenient mode: the returned value is not a constant on this path
 	results  []enumRes       // all results of the return, in order
+	descs    []string        // per result: "" when known; "str:<text>" for a constant string; a description from cfg.describe, or "?"
 	isBool bool              // result is a boolean (0/1) rather than an enum value
 	pos    token.Pos
 }
@@ -49,6 +51,7 @@ type enumCfg struct {
 	presetParams map[string]int64                     // value of integer/enum parameters, by parameter name
 	knownCalls   map[string]func(kindOfArg func(ssa.Value) (string, bool), c *ssa.Call) (int64, bool) // pure predicates that can be answered from preset kinds
 	lenient    bool                                   // unknown branch conditions fork (labelled "?"), unknown results are recorded with unknownResult
+	describe   func(e *enumEvaluator, s *enumState, v ssa.Value) (string, bool) // lenient mode: names an uninterpreted value; forks on it are labelled "<name>=T" / "<name>=F" instead of "?"
 	maxPaths   int
 }
 
@@ -61,10 +64,14 @@ type enumState struct {
 	roles   map[string]int64
 	vals    map[ssa.Value]int64 // evaluated enum/bool values
 	known   map[ssa.Value]bool
+	alias   map[ssa.Value]ssa.Value // phi -> the incoming value on this path (when it is not a known constant)
 }
 
 func (s *enumState) clone() *enumState {
-	c := &enumState{kind: s.kind, kindVal: s.kindVal, op: s.op, opNot: map[int64]bool{}, roles: map[string]int64{}, vals: map[ssa.Value]int64{}, known: map[ssa.Value]bool{}}
+	c := &enumState{kind: s.kind, kindVal: s.kindVal, op: s.op, opNot: map[int64]bool{}, roles: map[string]int64{}, vals: map[ssa.Value]int64{}, known: map[ssa.Value]bool{}, alias: map[ssa.Value]ssa.Value{}}
+	for k, v := range s.alias {
+		c.alias[k] = v
+	}
 	c.labels = append(c.labels, s.labels...)
 	for k, v := range s.opNot {
 		c.opNot[k] = v
@@ -163,6 +170,11 @@ func (e *enumEvaluator) eval(s *enumState, v ssa.Value) (int64, bool) {
 	if s.known[v] {
 		return s.vals[v], true
 	}
+	if a, ok := s.alias[v]; ok && a != v {
+		if s.known[a] {
+			return s.vals[a], true
+		}
+	}
 	if prm, ok := v.(*ssa.Parameter); ok && e.cfg.presetParams != nil {
 		if val, ok := e.cfg.presetParams[prm.Name()]; ok {
 			return val, true
@@ -220,6 +232,13 @@ func (e *enumEvaluator) runFrom(b, pred *ssa.BasicBlock, idx int, s *enumState, 
 				if p == pred {
 					if val, ok := e.eval(s, x.Edges[pi]); ok {
 						s.vals[x], s.known[x] = val, true
+					} else {
+						delete(s.known, x)
+						in := x.Edges[pi]
+						if a, ok := s.alias[in]; ok {
+							in = a
+						}
+						s.alias[x] = in
 					}
 				}
 			}
@@ -339,6 +358,21 @@ func (e *enumEvaluator) finish(x *ssa.Return, s *enumState) {
 	for _, rv := range x.Results {
 		v2, k2 := e.eval(s, rv)
 		o.results = append(o.results, enumRes{v2, k2})
+		d := ""
+		if !k2 {
+			d = "?"
+			if a, ok := s.alias[rv]; ok {
+				rv = a
+			}
+			if c, ok := rv.(*ssa.Const); ok && c.Value != nil && c.Value.Kind() == constant.String {
+				d = "str:" + constant.StringVal(c.Value)
+			} else if e.cfg.describe != nil {
+				if dd, ok := e.cfg.describe(e, s, rv); ok {
+					d = dd
+				}
+			}
+		}
+		o.descs = append(o.descs, d)
 	}
 	e.out = append(e.out, o)
 }
@@ -443,8 +477,21 @@ func (e *enumEvaluator) branch(b *ssa.BasicBlock, x *ssa.If, s *enumState, depth
 	if e.cfg.lenient {
 		t := s.clone()
 		f := s.clone()
-		t.labels = append(t.labels, "?")
-		f.labels = append(f.labels, "?")
+		lt, lf := "?", "?"
+		if e.cfg.describe != nil {
+			cv := x.Cond
+			if a, ok := s.alias[cv]; ok {
+				cv = a
+			}
+			if d, ok := e.cfg.describe(e, s, cv); ok {
+				lt, lf = d+"=T", d+"=F"
+			}
+			// the same uninterpreted condition decides the same way later on this path
+			t.vals[x.Cond], t.known[x.Cond] = 1, true
+			f.vals[x.Cond], f.known[x.Cond] = 0, true
+		}
+		t.labels = append(t.labels, lt)
+		f.labels = append(f.labels, lf)
 		e.run(b.Succs[0], b, t, depth+1)
 		e.run(b.Succs[1], b, f, depth+1)
 		return
@@ -471,7 +518,7 @@ func enumEvaluate(p *Prog, fn *ssa.Function, cfg *enumCfg) ([]enumOutcome, []str
 	if cfg.maxPaths == 0 {
 		cfg.maxPaths = 200000
 	}
-	s := &enumState{opNot: map[int64]bool{}, roles: map[string]int64{}, vals: map[ssa.Value]int64{}, known: map[ssa.Value]bool{}}
+	s := &enumState{opNot: map[int64]bool{}, roles: map[string]int64{}, vals: map[ssa.Value]int64{}, known: map[ssa.Value]bool{}, alias: map[ssa.Value]ssa.Value{}}
 	e.run(fn.Blocks[0], nil, s, 0)
 	sort.Strings(e.problems)
 	return e.out, e.problems
